@@ -264,7 +264,7 @@ Proof.
     destruct (take_bytes n r2) as [[m r3]| | |] eqn:E3; try discriminate. cbn [fst snd] in H.
     destruct (utf8_valid m) eqn:Eu; [|discriminate]. inversion H; subst v r. clear H.
     rewrite bindM_liftR. cbn [fst snd]. rewrite E2. rewrite bindM_liftR. cbn [fst snd]. rewrite E3. rewrite bindM_liftR. cbn [fst snd].
-    cost. destruct h; [rewrite Eu|]; done_ret.
+    cost. rewrite Eu. done_ret.
   - (* service *)
     assert (Hs : sub_dec_fast E (TServ ms) (TServ ms) = true) by (apply sub_dec_fast_correct; apply sub_refl).
     cost. rewrite Hs.
